@@ -587,7 +587,8 @@ def threaded_events(ctx: Ctx, rnd: random.Random, q: bool) -> list:
     from pyoda_time import DateTimeZoneProviders, Instant
     from pyoda_time.time_zones._cached_date_time_zone import _CachedDateTimeZone
 
-    files_zc = ("pyoda_time/time_zones/_caching_zone_interval_map.py",)
+    files_zc = ("pyoda_time/time_zones/_caching_zone_interval_map.py", "pyoda_time/time_zones/_standard_daylight_alternating_map.py",
+                "pyoda_time/time_zones/_zone_recurrence.py")
     zids = ["Europe/London", "America/Sao_Paulo", "Australia/Lord_Howe", "Asia/Tehran", "Africa/Casablanca"]
     for b in behs[: (20 if q else 300)]:
         prog, sched = b["prog"], b["sched"]
@@ -599,6 +600,11 @@ def threaded_events(ctx: Ctx, rnd: random.Random, q: bool) -> list:
         fresh = _CachedDateTimeZone._for_zone(inner)
         base_day = rnd.randint(-10000, 12000)
         imap = {k: Instant._ctor(days=base_day + 32 * (k % 2) + 512 * 32 * (k // 2) - 512 * 32 * 2, nano_of_day=rnd.randrange(86400) * 10**9) for k in range(8)}
+        if rnd.random() < 0.5:
+            # far enough in the future for the zone's recurring rules to answer, the two threads' instants half a year apart (different
+            # seasons of the same rules)
+            base_day = rnd.randint(60000, 200000)
+            imap = {k: Instant._ctor(days=base_day + 182 * (k % 2) + 512 * 32 * (k // 2), nano_of_day=rnd.randrange(86400) * 10**9) for k in range(8)}
         results = []
         lock = threading.Lock()
 
@@ -612,7 +618,7 @@ def threaded_events(ctx: Ctx, rnd: random.Random, q: bool) -> list:
             return fn
 
         sch = LineScheduler(files_zc, stall_s=0.02)
-        hung = sch.run([zbody(tn) for tn in names], [names.index(t) for t in sched if t in names])
+        hung = sch.run([zbody(tn) for tn in names], [names.index(t) for t in sched if t in names] + [rnd.randrange(len(names)) for _ in range(300)])
         pure = all(v == inner.get_zone_interval(t) and t in v for t, v in results)
         evs.append({"op": "thr", "what": "zone_interval_cache", "all_pure": pure, "identity_stable": True, "hung": bool(hung), "n": len(results)})
     # ... and the class-wide year cache of the Hebrew calculator (1024 slots, shared by both Hebrew calendars)
